@@ -391,12 +391,25 @@ def lookup_rules(rep, fq):
                     rep.fail("LOOKUP@findGlossaryEntry#names-range", "std::find does not search the names of the current entry (%s = %s)" % (base, src))
             else:
                 rep.fail("LOOKUP@findGlossaryEntry#names-range", "std::find(%s) is not a search of a whole names range for the parameter" % ", ".join(t))
+    # a lookup is a function of its argument and of the table: no static / thread_local state
+    for q in (G + "::findGlossaryEntry", G + "::contains", G + "::getGlossaryEntry"):
+        g = fq.get(q, [None])[0]
+        if g is None:
+            continue
+        st = [d["name"] for n_ in g.stmts.values() if n_["k"] == "DeclStmt" for d in n_["decls"] if d.get("static")]
+        if st:
+            rep.fail("LOOKUP@%s#stateful" % q.rsplit("::", 1)[-1],
+                     "%s keeps state between calls in static/thread_local variable(s) %s: the result of a lookup can depend "
+                     "on earlier lookups" % (q, ", ".join(st)))
+        else:
+            rep.ok("%s keeps no state between calls" % q, sample=False)
     # last return = end()
     rets = [x for x in f.walk(f.body) if f.stmts[x]["k"] == "ReturnStmt" and x not in set(f.walk(body))]
     if len(rets) == 1 and f.text(f.kids(rets[0])[0]).endswith("this->entries.end()"):
         rep.ok("findGlossaryEntry returns entries.end() when nothing matched")
     else:
-        rep.fail("LOOKUP@findGlossaryEntry#miss", "findGlossaryEntry does not end with 'return entries.end()'")
+        rep.fail("LOOKUP@findGlossaryEntry#miss", "findGlossaryEntry has %d return statement(s) outside the scan loop; expected exactly "
+                 "one, 'return entries.end()': %s" % (len(rets), [f.text(x) for x in rets]))
     # contains
     c = fq.get(G + "::contains", [None])[0]
     ge = fq.get(G + "::getGlossaryEntry", [None])[0]
